@@ -16,11 +16,11 @@ def make_content(rng, opts=None):
     o = dict(opts or {})
     npoints = o.get('npoints', rng.choice([0, 1, 2, 3, 5, 12]))
     nchan = o.get('nchan', rng.choice([0, 0, 1, 2, 4, 9]))
-    nsub = o.get('nsub', rng.choice([1, 2, 3, 10]) if nchan else 1)
+    nsub = o.get('nsub', rng.choice([1, 2, 3, 10, 5, 6, 7, 9]) if nchan else 1)
     nframes = o.get('nframes', rng.choice([0, 1, 2, 3, 7]))
     if npoints == 0 and nchan == 0: nframes = 0
     first = o.get('first', rng.choice([1, 1, 2, 100, 40000]))
-    prate = o.get('prate', rng.choice([50.0, 100.0, 120.0, 200.0, 30.0]))
+    prate = o.get('prate', rng.choice([50.0, 100.0, 120.0, 200.0, 30.0, f32(29.97), f32(59.94), f32(119.88)]))   # NTSC rates: n x rate is rounded
     arate = f32(prate * (nsub if nsub else 1))
     ids = rng.sample(range(1, 128), 8)
     if o.get('dense_ids'): ids = list(range(1, 9))
@@ -37,6 +37,9 @@ def make_content(rng, opts=None):
         return names, w
     plab, pw = labels(nlabels, b'p')
     alab, aw = labels(nalabels, b'a')
+    # a label that is present but blank (all spaces): the point / channel is then called "", not given a generic name
+    if plab and rng.random() < 0.12: plab[rng.randrange(len(plab))] = b''
+    if alab and rng.random() < 0.12: alab[rng.randrange(len(alab))] = b''
     recs = []
     G = lambda gid, name, desc=b'', lock=0: ('G', gid, name, desc, lock)
     P = lambda gid, name, ty, dims, vals, desc=b'', lock=0: ('P', gid, name, desc, lock, ty, dims, vals)
@@ -100,7 +103,8 @@ def make_content(rng, opts=None):
         an = [[rand_float_hex(rng) for _ in range(nchan)] for _ in range(nsub)]
         frames.append((pts, an))
     nev = rng.choice([0, 0, 3, 18])
-    c = dict(records=flat, first=first, rate=fhex(f2bits(prate)), gap=rng.choice([0, 10, 65535]),
+    hdr_rate_bits = f2bits(prate) + (rng.choice([1, -1, 2]) if rng.random() < 0.12 else 0)      # the header float may differ from POINT:RATE in its last bits
+    c = dict(records=flat, first=first, rate=fhex(hdr_rate_bits), gap=rng.choice([0, 10, 65535]),
              scale_bits=rng.choice([0xbf800000, 0xbc23d70a, 0xc2c80000]), nev=nev,
              evtime=[rand_float_hex(rng) if i < nev else '00000000' for i in range(18)],
              evdisp=[rng.choice([0, 1, 257]) if i < nev else 0 for i in range(9)],
@@ -155,6 +159,13 @@ def expected_dump(layout, c):
              gap=c['gap'], byframe=c['nsub'], rate=c['rate'], nev=c['nev'], evtime=c['evtime'], evdisp=c['evdisp'],
              evlab=[x.split(b'\x00')[0] for x in c['evlab']], keylab=c.get('keywords', (0, 0, 12345))[0], keyblk=c.get('keywords', (0, 0, 12345))[1], four=c.get('keywords', (0, 0, 12345))[2])
     sb = c['scale_bits']; h['scale'] = sb - 2**32 if sb >= 2**31 else sb
+    # the loader keeps the header's rate when it equals POINT:RATE to 1e-4 Hz the way the code compares them — int(r * 10000.0f) —
+    # and takes the parameter's otherwise
+    def key(bits):
+        x = struct.unpack('<f', struct.pack('<I', bits))[0]
+        return int(struct.unpack('<f', struct.pack('<f', x * 10000.0))[0])
+    pb = f2bits(c['prate'])
+    if key(int(c['rate'], 16)) != key(pb): h['rate'] = fhex(pb)
     plab = None; alab = None
     for e in g.values():
         if e['name'] == b'POINT':
